@@ -23,8 +23,8 @@ Definition getOp : dec op :=
 
 Definition getWorld : dec world :=
   do ios <- getList getFmt; do sf <- getList getSfx; do hd <- getList getVec;
-  do rd <- getVec; do wr <- getList (do v <- getZ; do c <- getN; ret (v, c)); do e <- getN;
-  ret {| w_ios := ios; w_sfx := sf; w_head := hd; w_rd := rd; w_wr := wr; w_empty := e |}.
+  do rd <- getVec; do wr <- getList (do v <- getZ; do c <- getN; ret (v, c)); do e <- getN; do inf <- getVec;
+  ret {| w_ios := ios; w_sfx := sf; w_head := hd; w_rd := rd; w_wr := wr; w_empty := e; w_inf := inf |}.
 
 Definition fmt_mask (l : list fmt) : Z :=
   fold_left Z.lor (map (fun g => Z.shiftl 1 (Z.of_nat (fmt_idx g))) l) 0.
